@@ -944,12 +944,14 @@ class Context(MetadataContextMixin, object):
                 reg = self.state_types_registry()
                 t = reg.get(type(data))
                 try:
-                    if state.metadata.get("extension") is None:
+                    # the key names the file: its extension decides the format
+                    extension = key_extension(self.store_key)
+                    if extension is None:
+                        extension = state.metadata.get("extension")
+                    if extension is None:
                         b, mime, typeid = encode_state_data(data)
                     else:
-                        b, mime, typeid = encode_state_data(
-                            data, extension=state.metadata["extension"]
-                        )
+                        b, mime, typeid = encode_state_data(data, extension=extension)
                     store.store(self.store_key, b, metadata)
                 except:
                     traceback.print_exc()
